@@ -96,6 +96,12 @@ def mut(name, cls, find, replace, regex=False):
 
 BODY = r"H::body\(\$constthis\)"
 
+
+def same(a, b):
+    """text of the SAME(a,b) macro of ps_contract.h (loop invariants are not preprocessed)"""
+    return "(%s==%s || (%s!=%s && %s!=%s))" % (a, b, a, a, b, b)
+
+
 # ---------------------------------------------------------------------------------------------------
 inst("RowObj", "RowObjPS", ["x", "y", "s", "", "cStatus", "rStatus", "isOptimal"],
      [("int", "m_i"), ("int", "m_j")],
@@ -126,6 +132,32 @@ inst("FixBounds", "FixBoundsPS", ["", "", "", "", "cStatus", "", "isOptimal"],
 inst("TightenBounds", "TightenBoundsPS", ["x", "", "", "", "cStatus", "rStatus", "isOptimal"],
      [("int", "m_j"), (R_, "m_origupper"), (R_, "m_origlower")], min_obl=10,
      mutants=[mut("swap_status", "TightenBoundsPS", "cStatus[m_j] = SPxSolverBase<R>::ON_LOWER;", "cStatus[m_j] = SPxSolverBase<R>::ZERO;")])
+
+
+inst("RowSingleton", "RowSingletonPS", XYSR,
+     [("int", "m_i"), ("int", "m_old_i"), ("int", "m_j"), (R_, "m_lhs"), (R_, "m_rhs"), ("bool", "m_strictLo"), ("bool", "m_strictUp"),
+      ("bool", "m_maxSense"), (R_, "m_obj"), (DSV, "m_col"), (R_, "m_newLo"), (R_, "m_newUp"), (R_, "m_oldLo"), (R_, "m_oldUp"), (R_, "m_row_obj")],
+     loops=[{"function": BODY, "loop": 0, "locals": ["k", "val"], "invariants": ["0<=k && k<=g_n"],
+             "assigns": ["k", "val"], "decreases": "g_n-k"}],
+     min_obl=500,
+     mutants=[mut("swap_status", "RowSingletonPS", "case SPxSolverBase<R>::ZERO:\n      rStatus[m_i] = SPxSolverBase<R>::BASIC;",
+                  "case SPxSolverBase<R>::ZERO:\n      rStatus[m_i] = SPxSolverBase<R>::FIXED;"),
+              mut("drop_status", "RowSingletonPS", "            cStatus[m_j] = SPxSolverBase<R>::ON_UPPER;\n            rStatus[m_i] = SPxSolverBase<R>::BASIC;",
+                  "            cStatus[m_j] = SPxSolverBase<R>::ON_UPPER;\n            ;"),
+              mut("redcost", "RowSingletonPS", "            cStatus[m_j] = SPxSolverBase<R>::BASIC;\n            y[m_i] = val / aij;\n            r[m_j] = 0.0;",
+                  "            cStatus[m_j] = SPxSolverBase<R>::BASIC;\n            y[m_i] = val / aij;\n            r[m_j] = val;"),
+              mut("shift_idx", "RowSingletonPS", "s[m_old_i] = s[m_i];", "s[m_i] = s[m_old_i];")])
+
+inst("FixVariable", "FixVariablePS", XYSR,
+     [("int", "m_j"), ("int", "m_old_j"), (R_, "m_val"), (R_, "m_obj"), (R_, "m_lower"), (R_, "m_upper"), ("bool", "m_correctIdx"), (DSV, "m_col")],
+     loops=[{"function": BODY, "loop": 0, "locals": [["k", "1::2::k"]], "invariants": ["0<=k && k<=g_n", "g_out != 0 || " + same("gp_s[g_kr]", "v_s")],
+             "assigns": ["k", "__CPROVER_object_whole(gp_s)"], "decreases": "g_n-k"},
+            {"function": BODY, "loop": 1, "locals": [["k", "1::3::k"], "val"], "invariants": ["0<=k && k<=g_n"],
+             "assigns": ["k", "val"], "decreases": "g_n-k"}],
+     min_obl=400,
+     mutants=[mut("status_basic", "FixVariablePS", "cStatus[m_j] = SPxSolverBase<R>::FIXED;", "cStatus[m_j] = SPxSolverBase<R>::BASIC;"),
+              mut("shift_idx", "FixVariablePS", "cStatus[m_old_j] = cStatus[m_j];", "cStatus[m_j] = cStatus[m_old_j];"),
+              mut("wrong_target", "FixVariablePS", "x[m_j] = m_val;", "x[m_old_j] = m_val;")])
 
 # ---------------------------------------------------------------------------------------------------
 UNIT = {
